@@ -24,12 +24,15 @@ func runC17(c *Ctx) {
 	c.Rule("R17c", "sqltool down templates range over `rev .Changes` and print every element of .ReverseStmts; the up part ranges over .Changes; `rev` reverses a copy", 6)
 	c.Rule("R17e", "alterTable builders: the reverse change recorded in a case is the inverse kind of the case's change (Add<X>↔Drop<X> with the same payload, Modify<X>/Rename<X> with From/To swapped)", 30)
 
+	c.Rule("R17h", "alterTable builders: the reversible flag is monotone: every assignment is the constant false or a conjunction that includes the flag itself", 3)
+	c.Rule("R17g", "planner statements: in every migrate.Change literal that sets both Cmd and Reverse, each object path named by the reverse statement (argument of Ident/Table/…) is covered by an object path the forward statement is built from in the same function", 15)
 	c.Rule("R17f", "alterTable builders: the reverse statement is stored only under `if reversible`, after sqlx.ReverseChanges(reverse) reversed the recorded changes", 4)
 	for _, pp := range []string{pMysql, pPostgres} {
 		checkAlterPairing(c, pp)
 	}
 	checkSetReversible(c)
 	checkDownTemplates(c)
+	checkReverseNames(c)
 }
 
 func isSchemaChangeSlice(t types.Type) bool {
@@ -125,6 +128,45 @@ func checkAlterPairing(c *Ctx, pkgPath string) {
 		}
 		return isNilIdent(info, r.Results[len(r.Results)-1])
 	}
+	// R17h: the reversible flag is monotone
+	ast.Inspect(fi.Decl.Body, func(m ast.Node) bool {
+		as, ok := m.(*ast.AssignStmt)
+		if !ok {
+			return true
+		}
+		for i, l := range as.Lhs {
+			id, ok := l.(*ast.Ident)
+			if !ok || i >= len(as.Rhs) {
+				continue
+			}
+			o := info.ObjectOf(id)
+			if o == nil || !(fi.Decl.Pos() <= o.Pos() && o.Pos() < fi.Decl.End()) {
+				continue
+			}
+			if b, ok := o.Type().Underlying().(*types.Basic); !ok || b.Kind() != types.Bool {
+				continue
+			}
+			if _, isVar := o.(*types.Var); !isVar || o.Name() == "ok" {
+				continue
+			}
+			// only flags that gate the store of Change.Reverse: a bool declared at function level
+			if o.Parent() != info.Scopes[fi.Decl.Type] {
+				continue
+			}
+			rhs := as.Rhs[i]
+			mono := false
+			if tv := info.Types[rhs]; tv.Value != nil && tv.Value.String() == "false" {
+				mono = true
+			}
+			for _, f := range impliedFacts(rhs, true) {
+				if x, ok := f.expr.(*ast.Ident); ok && f.val && info.ObjectOf(x) == o {
+					mono = true
+				}
+			}
+			c.Check("R17h", shortPkg(pkgPath)+".alterTable|"+o.Name()+" = "+types.ExprString(rhs), as.Pos(), mono, "the reversible flag is assigned `%s`, which can turn it back to true after an earlier irreversible change cleared it; it must only be cleared (false) or and-ed with itself", types.ExprString(rhs))
+		}
+		return true
+	})
 	for _, cl := range sw.Body.List {
 		cc := cl.(*ast.CaseClause)
 		if cc.List == nil {
@@ -526,5 +568,90 @@ func checkReverseBuild(c *Ctx, fi *FuncInfo) {
 		c.Check("R17f", fi.Name+"|Reverse stored under the reversible flag", node.Pos(), guarded, "Change.Reverse is stored without testing the reversible flag")
 		n, ok := f.mustPrecede(isRev, func(m ast.Node) bool { return m == node })
 		c.Check("R17f", fi.Name+"|ReverseChanges≺build(reverse)", nodePos(n, node.Pos()), ok, "the reverse statement is built without reversing the order of the recorded changes first")
+	}
+}
+
+// checkReverseNames: see R17g.
+func checkReverseNames(c *Ctx) {
+	for _, pp := range []string{pMysql, pPostgres, pSqlite} {
+		c.AllFuncs(false, func(fi *FuncInfo) {
+			if fi.Pkg.PkgPath != pp {
+				return
+			}
+			info := fi.Info()
+			n := 0
+			ast.Inspect(fi.Decl.Body, func(m ast.Node) bool {
+				cl, ok := m.(*ast.CompositeLit)
+				if !ok || !typeIs(info.TypeOf(cl), pMigrate, "Change") {
+					return true
+				}
+				var cmd, rev ast.Expr
+				for _, e := range cl.Elts {
+					if kv, ok := e.(*ast.KeyValueExpr); ok {
+						switch kv.Key.(*ast.Ident).Name {
+						case "Cmd":
+							cmd = kv.Value
+						case "Reverse":
+							rev = kv.Value
+						}
+					}
+				}
+				if cmd == nil || rev == nil {
+					return true
+				}
+				// object paths named by the reverse expression: selector-path arguments of calls inside rev
+				var revPaths []ast.Expr
+				ast.Inspect(rev, func(k ast.Node) bool {
+					if call, ok := k.(*ast.CallExpr); ok && builtinName(info, call) == "" {
+						for _, a := range call.Args {
+							if p := selPath(a); p != "" && strings.Contains(p, ".") {
+								revPaths = append(revPaths, a)
+							}
+						}
+					}
+					return true
+				})
+				if len(revPaths) == 0 {
+					return true
+				}
+				// forward paths: selector-path arguments (and receivers) of every call in the function outside rev
+				type fp struct {
+					path string
+					root types.Object
+				}
+				var fwd []fp
+				ast.Inspect(fi.Decl.Body, func(k ast.Node) bool {
+					if k == ast.Node(rev) {
+						return false
+					}
+					if call, ok := k.(*ast.CallExpr); ok {
+						for _, a := range call.Args {
+							if un, ok := a.(*ast.UnaryExpr); ok {
+								a = un.X
+							}
+							if p := selPath(a); p != "" {
+								if r := rootIdent(a); r != nil {
+									fwd = append(fwd, fp{p, info.ObjectOf(r)})
+								}
+							}
+						}
+					}
+					return true
+				})
+				for _, rp := range revPaths {
+					p := selPath(rp)
+					root := info.ObjectOf(rootIdent(rp))
+					covered := false
+					for _, f := range fwd {
+						if f.root == root && (f.path == p || strings.HasPrefix(p, f.path+".")) {
+							covered = true
+						}
+					}
+					n++
+					c.Check("R17g", fi.Name+"|reverse names "+p, rp.Pos(), covered, "the reverse statement names %s, but the forward statement of the same change is not built from %s (or a prefix of it): forward and reverse may refer to different objects/names", p, p)
+				}
+				return true
+			})
+		})
 	}
 }
